@@ -100,6 +100,39 @@ pub fn run_import(cfg: &config::ConfigEntry, fmt: Format, src: &str) -> Imported
     }
 }
 
+/// The REAL command `okane import --config <yaml> <statement.ext>` (`cmd::ImportCmd::run`, i.e. the glue of cli/src/cmd.rs:
+/// configuration file, selection by path, format by extension, decoding, printing), run on files in a scratch directory, compared
+/// with what the library path above printed: `same`, `diff:<enc of the command's output or error>`, or `n/a` (scratch files could not
+/// be written).  Both failing counts as `same`.
+pub fn cmd_check(yaml: &str, src: &str, ext: &str, printed: Option<&str>) -> String {
+    let dir = std::env::temp_dir().join(format!("okane-verif-impcmd-{}", std::process::id()));
+    if std::fs::create_dir_all(&dir).is_err() {
+        return "n/a".to_string();
+    }
+    let cfg_path = dir.join("config.yml");
+    let src_path = dir.join(format!("statement.{}", ext));
+    if std::fs::write(&cfg_path, yaml).is_err() || std::fs::write(&src_path, src).is_err() {
+        return "n/a".to_string();
+    }
+    let r = sx::catch(std::panic::AssertUnwindSafe(move || {
+        let cmd = okane::cmd::ImportCmd { config: cfg_path, source: src_path };
+        let mut buf: Vec<u8> = Vec::new();
+        match cmd.run(&mut buf) {
+            Ok(()) => Ok(String::from_utf8_lossy(&buf).to_string()),
+            Err(e) => Err(format!("{:?}", e)),
+        }
+    }));
+    let _ = std::fs::remove_dir_all(&dir);
+    match (r, printed) {
+        (Ok(Ok(text)), Some(p)) if text == p => "same".to_string(),
+        (Ok(Ok(text)), _) => format!("diff:{}", enc(&text)),
+        (Ok(Err(_)), None) => "same".to_string(),
+        (Ok(Err(e)), Some(_)) => format!("diff:{}", enc(&format!("error {}", e))),
+        (Err(_), None) => "same".to_string(),
+        (Err(m), Some(_)) => format!("diff:{}", enc(&format!("panic {}", m))),
+    }
+}
+
 /// the real book-keeping over `fund ++ printed`
 pub fn run_books(fund: &str, printed: &str) -> String {
     let text = format!("{}{}", fund, printed);
@@ -458,16 +491,18 @@ pub fn run(args: &[String], out: &mut dyn Write) -> i32 {
             (Some(p), false) => run_books(&fund, p),
             _ => "-".to_string(),
         };
+        let cmd = if f.contains_key("cmd") { cmd_check(&yaml, &src, "csv", imp.printed.as_deref()) } else { "-".to_string() };
         writeln!(
             out,
-            "{} import={} cells={} dates=({}) decs=({}) printed={} proc={}",
+            "{} import={} cells={} dates=({}) decs=({}) printed={} proc={} cmd={}",
             id,
             imp.sexp,
             cells_sx,
             dates.join(" "),
             decs.join(" "),
             enc(imp.printed.as_deref().unwrap_or("")),
-            proc_res
+            proc_res,
+            cmd
         )
         .unwrap();
     }
